@@ -319,7 +319,7 @@ pub fn eval_adts(b: &AdtsBatch) -> Outcome {
             f[3] = ((chan & 3) << 6) | ((((m >> 1) & 0xf) as u8) << 2) | ((declared >> 11) as u8 & 3);
             f[4] = (declared >> 3) as u8;
             f[5] = (((declared & 7) as u8) << 5) | ((m >> 5) as u8 & 0x1f);
-            f[6] = (((m >> 10) as u8 & 0x3f) << 2) | ((m >> 14) as u8 & 3) ^ (m as u8 & 3) & 3;
+            f[6] = (((m >> 8) as u8 & 0x3f) << 2) | ((m >> 14) as u8 & 3);
             let body = filler(f.len().saturating_sub(7), (declared as u64) << 8 | k as u64, 0);
             for (i, x) in body.iter().enumerate() {
                 f[7 + i] = *x;
@@ -399,7 +399,7 @@ pub fn eval_adts(b: &AdtsBatch) -> Outcome {
 fn run_adts(ctx: &Ctx) -> SubReport {
     // (field byte, misc bits): the misc values cover all four raw-data-block counts and both extremes of the other bits
     let fields: Vec<(u8, u16)> = if ctx.tier == Tier::Quick {
-        vec![(0x13, 0x0000), (0x13, 0x7fe1), (0x6c, 0xbffe), (0xf7, 0xffff)]
+        vec![(0x13, 0x0000), (0x13, 0x7fe1), (0x6c, 0xbffe), (0xf7, 0xffff), (0x13, 0x4000), (0x6c, 0x8000)]
     } else {
         let mut v = Vec::new();
         for (i, f) in [0x13u8, 0x00, 0x6c, 0xf7].into_iter().enumerate() {
